@@ -114,3 +114,41 @@ func VerifDumpTxn(txn *Txn) map[string]VerifNode {
 func VerifDumpIter(it Iter) map[string]VerifNode {
 	return verifCopyRoots(it.root)
 }
+
+// VerifRoots describes the roots slice of a tree version: its identity, the methods in slice order and the identity of
+// the root node of each (0 for a nil entry).
+type VerifRoots struct {
+	Addr    uintptr
+	Methods []string
+	Trees   []uintptr
+}
+
+func verifRoots(rs roots) VerifRoots {
+	v := VerifRoots{}
+	if len(rs) > 0 {
+		v.Addr = uintptr(unsafe.Pointer(unsafe.SliceData(rs)))
+	}
+	for _, n := range rs {
+		if n == nil {
+			v.Methods = append(v.Methods, "")
+			v.Trees = append(v.Trees, 0)
+			continue
+		}
+		v.Methods = append(v.Methods, n.key)
+		v.Trees = append(v.Trees, uintptr(unsafe.Pointer(n)))
+	}
+	return v
+}
+
+// VerifRootsOf, VerifRootsOfTxn, VerifRootsOfIter return the roots slice of the published tree, of the tree a
+// transaction works on, and of the tree an iterator was created on.
+func VerifRootsOf(r *Router) VerifRoots { return verifRoots(r.getRoot().root) }
+
+func VerifRootsOfTxn(txn *Txn) VerifRoots {
+	if txn.rootTxn == nil {
+		return VerifRoots{}
+	}
+	return verifRoots(txn.rootTxn.root)
+}
+
+func VerifRootsOfIter(it Iter) VerifRoots { return verifRoots(it.root) }
